@@ -98,6 +98,8 @@ impl Live {
         crate::guarded(std::panic::AssertUnwindSafe(move || r.handle_response(&msg)))
     }
     pub fn deliver(&self, v: &Value) -> Result<ResponseAuthenticationOutcome, String> { self.deliver_mode(v, false) }
+    /// the response as the device's message number `n` on the wire (for a copy of this reader)
+    pub fn wire_message(&self, v: &Value, n: u32) -> Vec<u8> { self.encrypt_for_reader(v, n) }
 }
 
 fn alg_token(prot: &[u8]) -> String {
